@@ -61,6 +61,69 @@ def ref_change_case(s, mode):
     if m == 'u': return s.upper()
     return s[:1] + s[1:].lower()
 
+_CW = None
+def _cw(c):
+    global _CW
+    if _CW is None:
+        from pybtex.charwidths import charwidths      # a table of numbers (data), not code
+        _CW = charwidths
+    return _CW.get(c, 0)
+
+def lone_backslash_at_level_1(s):
+    """a backslash at brace depth 1 that does not start a special character (it is not the first character of a
+    depth-1 group opened at depth 0)"""
+    depth = 0
+    for i, c in enumerate(s):
+        if c == '{': depth += 1
+        elif c == '}': depth = max(0, depth - 1)
+        elif c == '\\' and depth == 1 and not (i > 0 and s[i - 1] == '{'):
+            return True
+    return False
+
+def ref_width(s):
+    """width$ as documented (btxhak; the examples of bibtex_width's docstring): the sum of the widths of the characters,
+    braces included; a special character (a group at depth 0 whose first character is a backslash) counts without its
+    two braces and without the backslash and the character after it, inner braces not counted.  Unknown for unbalanced
+    strings and for special characters whose control sequence has two or more letters (BibTeX skips the whole name)."""
+    depth = i = w = 0
+    while i < len(s):
+        c = s[i]
+        if c == '{':
+            if depth == 0 and i + 1 < len(s) and s[i + 1] == '\\':
+                j, d = i + 1, 1
+                while j < len(s) and d > 0:
+                    d += {'{': 1, '}': -1}.get(s[j], 0); j += 1
+                if d > 0: return UI
+                inner = s[i + 1:j - 1]
+                if re.match(r'\\[A-Za-z]{2,}', inner): return UI
+                w += sum(_cw(ch) for ch in inner[2:] if ch not in '{}')
+                i = j
+                continue
+            depth += 1
+        elif c == '}':
+            if depth == 0: return UI
+            depth -= 1
+        w += _cw(c)
+        i += 1
+    return w if depth == 0 else UI
+
+def ref_wrap(line):
+    """BibTeX's output line: longer than 79 characters, it is broken at the last white space at or before column 79 (not
+    within the indentation) or, if there is none, at the first one after it; exactly that one character is removed, the
+    rest continues on a new line indented by two blanks; trailing white space of every line is dropped"""
+    out, s = [], line
+    while len(s) > 79:
+        ws = [i for i, c in enumerate(s) if c == ' ' and i > 2]
+        fit = [i for i in ws if i <= 79]
+        if fit: p = fit[-1]
+        elif ws: p = ws[0]
+        else: break
+        out.append(s[:p].rstrip(' '))
+        s = '  ' + s[p + 1:]
+    if s:
+        out.append(s.rstrip(' '))
+    return '\n'.join(out)
+
 def ref_text_length(s):
     """btxhak: text.length$ counts characters; braces do not count, a special character (a group at brace depth 0
     whose first character is a backslash) counts as one.  Unbalanced strings: unknown."""
@@ -120,6 +183,7 @@ class Ref(object):
         self.opaque = False       # a built-in the oracle does not compute was used: it may legitimately fail
         self.steps = 0
         self.warnings = 0
+        self.width_args = []
 
     def pop(self, pred=None):
         if not self.stack:
@@ -205,7 +269,9 @@ class Ref(object):
         elif b == 'purify$':
             self.pop(is_str); self.opaque = True; st.append(US)
         elif b == 'width$':
-            self.pop(is_str); self.opaque = True; st.append(UI)
+            s = self.pop(is_str); self.opaque = True
+            if known(s): self.width_args.append(s)
+            st.append(ref_width(s) if known(s) and all(32 <= ord(c) < 127 for c in s) else UI)
         elif b == 'format.name$':
             fmt = self.pop(is_str); n = self.pop(is_int); names = self.pop(is_str)
             self.opaque = True        # may legitimately be a BibTeX error (malformed format, nesting too deep)
@@ -275,9 +341,9 @@ class Ref(object):
         elif b == 'newline$':
             if all(known(x) for x in self.buf):
                 line = ''.join(self.buf)
-                if len(line) > 79 or any(c.isspace() and c != ' ' for c in line):
-                    self.out_ok = False     # line breaking is C19's
-                self.lines.append(line.rstrip(' ') + '\n')
+                if any(c.isspace() and c != ' ' for c in line):
+                    self.out_ok = False     # other white space than blanks: C19's
+                self.lines.append(ref_wrap(line) + '\n')
             else:
                 self.out_ok = False
             self.buf = []
@@ -355,7 +421,7 @@ def oracle_reference(arg, out):
     stack = st[1]
     ref_stack = r.stack[::-1]
     if len(stack) != len(ref_stack) or not all(same_value(a, b, r) for a, b in zip(ref_stack, stack)):
-        return 'final stack (top first) should be %r' % (ref_stack,)
+        return 'final stack (top first) should be %r' % (ref_stack,) + (' (width$ was applied to %r)' % (r.width_args,) if r.width_args else '')
     if r.out_ok and S(st[0]) != ''.join(r.lines):
         return 'output should be %r, is %r' % (''.join(r.lines), S(st[0]))
     if r.out_ok and not all(same_value(a, b, r) for a, b in zip(r.buf, st[5])) or (r.out_ok and len(r.buf) != len(st[5])):
